@@ -80,7 +80,16 @@ fn main() {
         } else {
             String::new()
         };
-        mon::LAST_PANIC.with(|p| *p.borrow_mut() = format!("{loc}: {msg}"));
+        // (try_with: the hook can run while the thread's locals are being destroyed — thread-exit probes)
+        let text = format!("{loc}: {msg}");
+        if let Ok(mut g) = mon::LAST_PANIC_ANY_THREAD.lock() {
+            *g = text.clone();
+        }
+        let _ = mon::LAST_PANIC.try_with(|p| {
+            if let Ok(mut b) = p.try_borrow_mut() {
+                *b = text
+            }
+        });
     }));
     let cmd = args[1].as_str();
     let id = args[2].clone();
